@@ -231,3 +231,44 @@ def dictionary_reuse(env, symmetry):
     for span, got, want, d in outs:
         env.eq("C13", "all-default geometry returns the model's own mesh although the dictionary served another model before [span %s]" % span,
                got, want)
+
+
+@job("c13.dv_flags", ("C13",), cfgs=[dict(symmetry=True), dict(symmetry=False, _tier=T)])
+def dv_flags(env, symmetry):
+    """the optional "<variable>_dv" switches of the geometry group: switching one variable's own default off (because another
+    component drives it) leaves every other design variable at the value the surface dictionary gives - exhaustively, one
+    switch at a time, over all geometric design variables (control-point and scalar ones)"""
+    import warnings
+    import openmdao.api as om
+    ny = 3 if symmetry else 5
+    base = surface(name="wing", nx=2, ny=ny, symmetry=symmetry)
+    for k in ("thickness_cp",):
+        base.pop(k, None)
+    cps = dict(twist_cp=np.array([1.5, -0.5]), chord_cp=np.array([1.1, 0.9]), t_over_c_cp=np.array([0.11, 0.13]),
+               xshear_cp=np.array([0.2, -0.1]), yshear_cp=np.array([0.05, 0.15]), zshear_cp=np.array([-0.2, 0.3]))
+    scalars = dict(sweep=7.0, dihedral=3.0, taper=0.7, span=9.0)
+    base.update(cps)
+    base.update(scalars)
+    names = list(cps) + list(scalars)
+    for off in names:
+        s = dict(base)
+        s[off + "_dv"] = False
+        p = om.Problem(reports=False)
+        p.model.add_subsystem("geom", cls("geometry.geometry_group.Geometry")(surface=s), promotes=["*"])
+        with warnings.catch_warnings():
+            warnings.simplefilter("ignore")
+            p.setup()
+            p.final_setup()
+        wrong = []
+        for v in names:
+            if v == off:
+                continue
+            try:
+                got = np.asarray(p.get_val(v)).reshape(-1)
+            except KeyError:
+                wrong.append("%s: not an input of the group" % v)
+                continue
+            want = np.asarray(base[v], dtype=float).reshape(-1)
+            if got.shape != want.shape or not np.allclose(got, want, rtol=1e-12, atol=0):
+                wrong.append("%s = %s instead of %s" % (v, got.tolist(), want.tolist()))
+        env.holds("C13", "with %s_dv switched off every other design variable starts from the dictionary's value" % off, not wrong, "; ".join(wrong[:4]))
